@@ -56,6 +56,10 @@ func NewExchangeJSightSchema[T bytes.ByteKeeper](
 	}
 
 	err := coreUserTypes.Each(func(k string, v schema.Schema) error {
+		if k == "" {
+			// A TYPE directive without a name: the error is reported for that directive.
+			return nil
+		}
 		return es.JSchema.AddType(k, v)
 	})
 	if err != nil {
